@@ -281,6 +281,15 @@ func genWatchShaped(r *sx.Rng) spec {
 	if r.Chance(1, 3) {
 		s.scText = []string{"all"}
 	}
+	if r.Chance(1, 4) {
+		// the same filters on a proper subset of the syscalls: not a watch, the listing must keep the -S restriction
+		s.scAll, s.scText = false, nil
+		for k := 1 + r.Intn(3); k > 0; k-- {
+			num := uint32(sx.Pick(r, []int{0, 2, 59, 257, 263, 2047, r.Intn(400)}))
+			s.scText = append(s.scText, strconv.Itoa(int(num)))
+			s.scNums = append(s.scNums, num)
+		}
+	}
 	seg := func() string { return strings.Trim(strings.ReplaceAll(safeStr(r, 1+r.Intn(6)), "/", "x"), ".") + "q" }
 	path := "/" + seg() + "/" + seg()
 	switch r.Intn(10) {
